@@ -30,6 +30,15 @@ CLAIMED = {
     technique="deterministic simulation of lossy editing sessions with restart events: list-model oracle per step, print -> lossy from_reader (faulting reader) -> equality, separator and lossless-agreement checks",
     text="Lossy documents built from name/value pairs are edited through iter_mut() with set/insert/remove/get against a list model; restart events print the document and reload it through lossy::Deb822::from_reader over a chunked EINTR-ing reader and through the strict lossless reader; reloaded value must equal the live value.",
     note="Trusted: list model. Paragraphs are never emptied and continuation lines never start with '#' (domain decisions)."),
+
+ "C18": dict(level="exploration", ref="DESIGN.md §2 C18",
+    technique="deterministic simulation of hash epochs: print / parse / re-print each typed value in three fresh threads whose RandomState keys are drawn from the run's PRNG through the interposed getrandom; table-driven codec checks for the seed-independent rows",
+    text="Claimed narrowly: PackageListEntry prints a HashMap, so its round trip depends on the process's hasher keys; the simulator makes those keys a scheduled, replayable choice and re-prints every value in a different hash epoch from the one that parsed it. The other 21 type rows are run as seeded table-driven checks (outcome cannot depend on a schedule).",
+    note="Trusted: the interposed getrandom symbol as the only source of RandomState keys (self-tested at start-up); canonical extras order = sorted by key."),
+ "C20": dict(level="exploration", ref="DESIGN.md §2 C20",
+    technique="deterministic simulation of the persist/restart/reload cycle across hash epochs: generated typed documents parsed, printed, re-parsed under fresh hasher keys and re-printed; field-wise comparison with the lossless reader via an independent reference relation reader; structurally invalid variants must be rejected",
+    text="Each generated typed document goes through value -> text -> (new hasher keys) -> value -> text; values and prints must agree, the typed fields must carry what the lossless reader shows for the same text (relation fields compared structurally with a reference reader), and structurally invalid variants (no/two source paragraphs, paragraph of neither kind, missing mandatory field) must be rejected.",
+    note="Trusted: field tables and generators (gen/typed.rs), the reference relation reader. Rejection of well-formed input is counted, not judged (that is C03/C10)."),
 }
 
 NOT_APPLICABLE = {
